@@ -27,6 +27,7 @@ printf '%s' "$JADE_JOB_NAME" > "$d/env_name"
 printf '%s' "$PROBE_KEEP" > "$d/env_keep"
 echo "to-stdout"
 echo "to-stderr" >&2
+if [ -n "$PROBE_SIGNAL" ]; then kill -"$PROBE_SIGNAL" $$; fi
 exit "$PROBE_CODE"
 '''
 ALPHABET = ["a", "b", "Z", "0", " ", "  ", "\t", "'", '"', "\\", "\\ ", "-", "=", "x y", "'q r'", '"s t"', "\\\\", "%", "@", ":", "+", ","]      # no expansion / comment characters ($ ` * ? ~ # ; | & < > ( )): splitting and quote removal only
@@ -87,6 +88,9 @@ def run_launch(S, case):
         os.environ["PROBE_DIR"] = str(pdir)
         os.environ["PROBE_CODE"] = str(code)
         os.environ["PROBE_KEEP"] = "kept-%d" % case["seed"]
+        os.environ["PROBE_SIGNAL"] = str(case.get("signal") or "")
+        if case.get("signal"):
+            code = -int(case["signal"])          # subprocess reports a process killed by signal N as -N: that is the real exit status to record
         failed = []
         batch_id = case["batch_id"]
         acc = AsyncCliCommand(job, cmd, output, batch_id, case["manager"], case["hpc_job_id"])
@@ -143,13 +147,13 @@ NAMES = ["job1", "a.b", "job-2", "J_3", "x" * 40, "1", "job+plus", "job@host", "
 
 
 def cases_launch(tier, rng):
-    n = 70 if tier == "quick" else 1500
+    n = 200 if tier == "quick" else 3000
     codes = list(range(256))
     for i in range(n):
         yield {"seed": rng.randint(0, 10**9), "name": rng.choice(NAMES), "name_class": "plain",
                "append_job_name": bool(i & 1), "append_output_dir": bool(i & 2),
                "code": codes[(i * 37) % 256] if tier == "quick" else codes[i % 256], "manager": (i % 5) != 4, "batch_id": rng.randint(1, 9),
-               "hpc_job_id": str(rng.randint(1, 10**6)), "space_in_output": (i % 7) == 6}
+               "hpc_job_id": str(rng.randint(1, 10**6)), "space_in_output": (i % 7) == 6, "signal": (9 if (i % 11) == 10 else (15 if (i % 13) == 12 else None))}
     # finding F9: the unquoted row format cannot carry a job name that contains the delimiter
     yield {"seed": 1, "name": "a,b", "name_class": "comma", "append_job_name": False, "append_output_dir": False, "code": 0, "manager": True,
            "batch_id": 1, "hpc_job_id": "7", "space_in_output": False, "args": "x"}
